@@ -92,6 +92,18 @@ def _unit_trades(c, a):
     return out
 
 
+def _unit_pair(alg, atom):
+    """atan2(y, x) with y = sy*Y, x = sx*X single generators and x^2 + y^2 = 1 (normal form): (Yname, sy, Xname, sx)"""
+    y, x = atom.args
+    if not (len(y) == 1 and len(x) == 1 and abs(y.LC) == 1 and abs(x.LC) == 1 and sum(y.LM) == 1 and sum(x.LM) == 1):
+        return None
+    names = list(alg.gen.keys())
+    yn, xn = names[list(y.LM).index(1)], names[list(x.LM).index(1)]
+    if not alg.is_zero(x * x + y * y - 1):
+        return None
+    return yn, int(y.LC), xn, int(x.LC)
+
+
 def decision_facts(c):
     """(upper, lower): bounds |gen| <= u, gen >= l (> 0) implied by the path's decisions.
     Recognised facts:  Q <= const (Q positive diagonal quadratic form),  R^k <= const,  R^k >= const
@@ -101,6 +113,7 @@ def decision_facts(c):
     alg = c.alg
     upper, lower = {}, {}
     sqrt_gens = [(name, atom.args[0]) for name, (atom, role) in alg.gen_atom.items() if atom.kind == "sqrt"]
+    abs_gens = [(name, atom.args[0]) for name, (atom, role) in alg.gen_atom.items() if atom.kind == "abs"]
 
     def up(g, b):
         if g not in upper or b < upper[g]:
@@ -123,7 +136,7 @@ def decision_facts(c):
                 if quad:
                     for g, a in quad.items():
                         up(g, _sqrt_up(const / a))
-            for (rn, rarg) in sqrt_gens:
+            for (rn, rarg) in sqrt_gens + abs_gens:
                 R = alg.gen[rn]
                 for k in range(1, 7):
                     if const > 0 and alg.is_zero(rest + R ** k):
@@ -131,6 +144,8 @@ def decision_facts(c):
                     if const < 0 and alg.is_zero(rest - R ** k):
                         lo(rn, _root_down(-const, k))
                 # e == c1 - lam * R^2 with R^2 = rarg a polynomial in the inputs (e.g. 4 - 4 w^2)
+                if (rn, rarg) in abs_gens:
+                    continue
                 q = alg.nf(rarg)
                 en = alg.nf(e)
                 pick = [m for m in q.keys() if sum(m)]
@@ -158,10 +173,27 @@ def decision_facts(c):
                     sb = upper[sn]
                     a1 = Fraction(15708, 10000) * sb
                     up(g, sb / (1 - a1 * a1 / 6) / _fr(coef))
+    # |c*g| <= u  ==>  |g| <= u/|c|
+    for (an, aarg) in abs_gens:
+        if an in upper and len(aarg) == 1:
+            (mon, coef), = aarg.items()
+            if sum(mon) == 1:
+                up(names[list(mon).index(1)], upper[an] / abs(_fr(coef)))
+    # A = atan2(y, x) with x^2 + y^2 = 1:  |y| = |sin A| <= |A|
+    for name, (atom, role) in alg.gen_atom.items():
+        if atom.kind == "atan2" and name in upper:
+            pr = _unit_pair(alg, atom)
+            if pr:
+                up(pr[0], upper[name])
     # propagate an upper bound of R = sqrt(sum a_i v_i^2) to the v_i
     for (rn, rarg) in sqrt_gens:
         if rn in upper:
             quad = _diag_quadratic(alg, rarg)
+            if not quad:
+                for alt in _unit_trades(c, alg.nf(rarg)):      # e.g. 1 - w^2 = x^2 + y^2 + z^2 on a unit quaternion
+                    quad = _diag_quadratic(alg, alt)
+                    if quad:
+                        break
             if quad:
                 for g, a in quad.items():
                     up(g, upper[rn] / _root_down(a, 2))
@@ -192,13 +224,20 @@ def z3_abs_lower(c, f):
         dec = z.decisions(c.path)
         e = z.expr(f)
         base = z.base_constraints(c.extra_facts_z3(z), without_inverses=True) + dec
-        t0 = 0.0
-        for L in reversed(_LCAND):       # smallest first: if even that fails, give up at once
-            r, model, dt = z.check(base + [e < smt.z3.Q(L.numerator, L.denominator), e > -smt.z3.Q(L.numerator, L.denominator)])
-            t0 += dt
-            if r != "unsat":
-                break
-            best = L
+        def proves(L):
+            q = smt.z3.Q(L.numerator, L.denominator)
+            r, model, dt = z.check(base + [e < q, e > -q])
+            return r == "unsat"
+        # |f| >= 2^-k: provable for k >= k*, binary search for the smallest such k in 1..56
+        lo, hi = 1, 56
+        if proves(Fraction(1, 2 ** hi)):
+            while lo < hi:
+                mid = (lo + hi) // 2
+                if proves(Fraction(1, 2 ** mid)):
+                    hi = mid
+                else:
+                    lo = mid + 1
+            best = Fraction(1, 2 ** hi)
     except Exception:
         best = None
     cache[key] = best
@@ -416,12 +455,43 @@ def expand_trig(c, p, bounds):
         if ab is None or ab > Fraction(1, 10):
             continue
         y, x = atom.args
-        if not (len(y) == 1 and len(x) == 1 and y.LC == 1 and x.LC == 1 and sum(y.LM) == 1 and sum(x.LM) == 1):
+        pr = _unit_pair(alg, atom)
+        if not pr:
             continue
-        yn, xn = names_[list(y.LM).index(1)], names_[list(x.LM).index(1)]
+        yn, sy, xn, sx = pr
+        if yn in alg.gen_atom and alg.gen_atom[yn][0].kind == "sqrt" and xn not in alg.gen_atom:
+            # Y = |sin A| is a square-root generator tied to other inputs (Y^2 = v.v): keep Y, expand A and X in Y
+            #   A = asin(y) = y + y^3/6 + 3y^5/40 + 5y^7/112 + y^9 r1,  0 <= r1 <= 1/32      (|y| <= 1/10, |A| < pi/2)
+            #   x = cos A = sqrt(1 - y^2) = 1 - y^2/2 - y^4/8 - y^6/16 - y^8 r2,  0 <= r2 <= 1/24
+            yb = bounds.get(yn)
+            if yb is None or yb > Fraction(1, 10) or not alg.uses_gens(p, [name, xn] + [an for an, (aat, _) in alg.gen_atom.items() if aat.kind == "abs"]):
+                continue
+            key = ("taylor_asin", name)
+            if key not in c.__dict__.setdefault("_taylor_cache", {}):
+                from engine.alg import Atom
+                r1 = alg.new_gen(("taylor_rem_asin", y))
+                r2 = alg.new_gen(("taylor_rem_sqrt1m", y))
+                alg.gen_atom[r1] = (Atom("taylor_rem", (r1,), (y,), Fraction(1, 32)), "rem")
+                alg.gen_atom[r2] = (Atom("taylor_rem", (r2,), (y,), Fraction(1, 24)), "rem")
+                q = lambda n, d: alg.const(Fraction(n, d))
+                Aser = y + y ** 3 * q(1, 6) + y ** 5 * q(3, 40) + y ** 7 * q(5, 112) + y ** 9 * alg.gen[r1]
+                Xser = (alg.R.one - y ** 2 * q(1, 2) - y ** 4 * q(1, 8) - y ** 6 * q(1, 16) - y ** 8 * alg.gen[r2]) * alg.const(sx)
+                c._taylor_cache[key] = (Aser, Xser, r1, r2)
+            Aser, Xser, r1, r2 = c._taylor_cache[key]
+            bounds[r1] = Fraction(1, 32)
+            bounds[r2] = Fraction(1, 24)
+            subs.append((alg.gen[name], Aser))
+            subs.append((alg.gen[xn], Xser))
+            # |k*A| = |k| * sign(y) * A  with sign(y) = sy (Y >= 0)
+            for an, (aat, _) in list(alg.gen_atom.items()):
+                if aat.kind == "abs" and len(aat.args[0]) == 1:
+                    (mon, coef), = aat.args[0].items()
+                    if sum(mon) == 1 and names_[list(mon).index(1)] == name:
+                        subs.append((alg.gen[an], Aser * alg.const(abs(_fr(coef)) * sy)))
+            continue
+        if sy != 1 or sx != 1:
+            continue
         if yn in alg.gen_atom or xn in alg.gen_atom or not alg.uses_gens(p, [yn, xn]):
-            continue
-        if not alg.is_zero(x * x + y * y - 1):
             continue
         key = ("taylor_atan2", name)
         if key not in c.__dict__.setdefault("_taylor_cache", {}):
